@@ -405,7 +405,7 @@ func replayObligation(prog *Prog, r *FuncResult, o *Obl, verif, repo string) *Re
 		res.Detail["replay"] = "not attempted: function literal"
 		return res
 	}
-	script := buildScript(v.d.lines, v.axioms, o, false, false)
+	script := buildScript(v.d.lines, v.axioms, o, false, false, v.d.mode)
 	ins, why := concreteInputs(r, o, script)
 	if why != "" {
 		res.Detail["replay"] = "not attempted: " + why
